@@ -5,7 +5,11 @@
             one outcome per open / write / close call of the command, in program order
      buf    <flag>:<hex text>   the table in slot order; flag 1 = reported modified.  Buffer i has path i, recorded stamp 5,
             and its file exists with stamp 5.
-   Answer:  <ok|refused|failed> <quit|stay> <path of the current buffer afterwards> <flags afterwards, by path> *)
+   Answer:  <ok|refused|failed> <quit|stay> <path of the current buffer afterwards> <flags afterwards, by path>
+   Request:  A <cmd> <slot0> <slot1> ...      (coq/DirtyAllDefs.v: ec_quit_n, every save of a path succeeds)
+     cmd    q | wq | x | xa, optionally followed by !
+     slot   n0 | n1 | u0 | u1 | -   a buffer with a name / the buffer without a name (at most one), not reported / reported modified; - = empty slot
+   Answer:  quit | stay <slot (before the command) of the buffer that is current afterwards> <names handed to lbuf_save by the loop: slot numbers, u = the empty path> *)
 let pr = Printf.printf
 
 let mk_buf i w =
@@ -35,8 +39,39 @@ let answer st q t =
     | [] -> "?")) in
   pr "%s %s %d %s\n" (st_name st) (if q then "quit" else "stay") cur flags
 
+let mk_nbuf i w =
+  let x = [n_of_int 120; n_of_int 10] in
+  let ed f = nrun f [NBump; NEdit (Some x, O, O); NBump] in
+  match w with
+  | "n0" -> Some (nbuf_open [n_of_int 111; n_of_int 10] (nat_of_int i))
+  | "n1" -> Some (ed (nbuf_open [n_of_int 111; n_of_int 10] (nat_of_int i)))
+  | "u0" -> Some nbuf_new
+  | "u1" -> Some (ed nbuf_new)
+  | _ -> None
+
+let answer_all cmd slots =
+  let n = String.length cmd in
+  let bang = n > 0 && cmd.[n - 1] = '!' in
+  let base = if bang then String.sub cmd 0 (n - 1) else cmd in
+  let c = match base with "q" -> Some CQ | "wq" -> Some CWq | "x" -> Some CX | "xa" -> Some CXa | _ -> None in
+  match c with
+  | None -> pr "bad\n"
+  | Some c ->
+      let tab = List.mapi mk_nbuf slots in
+      let (((t', q), cl), _) = ec_quit_n c bang WOwn tab [] in
+      let nm = function Some p -> string_of_int (int_of_nat p) | None -> "u" in
+      let calls = String.concat "," (List.map nm cl) in
+      if q then pr "quit %s\n" calls
+      else
+        let cur = match noccupied t' with f :: _ -> f.nname | [] -> None in
+        let idx = match cur with
+          | Some p -> int_of_nat p
+          | None -> (let rec find i = function [] -> -1 | w :: r -> if w = "u0" || w = "u1" then i else find (i + 1) r in find 0 slots) in
+        pr "stay %d %s\n" idx calls
+
 let () = iter_lines (fun l ->
   match words l with
+  | "A" :: cmd :: slots when slots <> [] -> answer_all cmd slots
   | "F" :: cmd :: sched :: bufs when bufs <> [] ->
       let t = List.mapi mk_buf bufs in
       let fs = List.mapi (fun i _ -> (nat_of_int i, ([n_of_int 111; n_of_int 10], z_of_int 5))) bufs in
